@@ -4,8 +4,9 @@ property) and variants/*/equiv-*.diff (behaviour-preserving refactorings: every 
 check must stay silent on them).  Hand-written variants (variants/*/break-*.diff) are kept."""
 import json, glob, os, re
 os.chdir('/verif')
-old = json.load(open('variants/EXPECT.json'))
-out = [e for e in old if '/break-' in e['patch']]
+out = []
+for e in json.load(open('variants/BREAK.json')):
+    e = dict(e); e['expect'] = 'violation'; out.append(e)
 props = ['C%02d' % i for i in range(1, 21)]
 for line in open('seeded/MATRIX.txt'):
     m = re.match(r'(\S+) \| caught-by: (.*?) \| rules: (.*)', line.strip())
